@@ -131,6 +131,8 @@ var pref64Pool = []string{
 var serverPool = []string{
 	"::", "2001:db8::1", "2001:db8::2", "fd00::53", "fe80::1", "2001:DB8::1", "2001:db8:0::1", "192.0.2.1", "::ffff:192.0.2.1",
 	"x", "", "2001:db8::1/64", "::1", "ff02::1",
+	// zones mean something on this machine only and cannot be carried in an RA
+	"fe80::1%eth0", "::%eth0", "2001:db8::1%eth1",
 }
 
 var namePool = []string{"example.com", "lan", "foo.example.com", "a.b.c.example.org", "corp.example.net", "EXAMPLE.com"}
@@ -582,6 +584,7 @@ func InteractionDocs() []Case {
 		{"::"}, {"::", "::"}, {"::", "2001:db8::1"}, {"2001:db8::1", "::"}, {"2001:db8::2", "2001:db8::1"}, {"2001:db8::1", "2001:db8::1"},
 		{"2001:db8::1", "2001:DB8:0::1"}, {"2001:db8::1", "0::", "fd00::1"}, {"2001:db8::3", "2001:db8::1", "2001:db8::2"},
 		{"::", "2001:db8::1", "0:0::"}, {"2001:db8::1", "192.0.2.1"}, {"fe80::1", "fd00::1", "2001:db8::1"},
+		{"fe80::1%eth0", "fe80::1%eth1"}, {"::", "::%eth0"}, {"::%eth0", "2001:db8::1"}, {"fe80::1%eth0", "fe80::1"},
 	}
 	for i, set := range sets {
 		f := baseIface()
